@@ -61,6 +61,25 @@ Theorem C06_refuted_without_validation :
                 F = AuthF Zero Zero nonce_auth 1001 Ed25519 1001 Zero /\ ~ mentions b Zero.
 Proof. exact responder_auth_refuted_without_validation. Qed.
 
+(* contact_request_manager.go: the contact request is recorded only for the key proven in this very
+   session (compose with C06_responder_auth / C06_session_binding), named by the card the peer sent,
+   well formed, and never for the account's own key *)
+Theorem C06_recorded_contact_is_authenticated :
+  forall self B b X F ack c A,
+    incoming self (fst (responder true B b X F ack)) c = Some A ->
+    exists sent, responder true B b X F ack = (Some A, sent) /\ c = Card A true /\ A <> self.
+Proof. exact incoming_records_authenticated. Qed.
+
+Theorem C06_card_naming_another_key_rejected :
+  forall self A pk ok, pk <> A -> incoming self (Some A) (Card pk ok) = None.
+Proof. exact incoming_card_mismatch. Qed.
+
+Theorem C06_no_record_without_handshake : forall self c, incoming self None c = None.
+Proof. exact incoming_needs_handshake. Qed.
+
+Print Assumptions C06_recorded_contact_is_authenticated.
+Print Assumptions C06_card_naming_another_key_rejected.
+Print Assumptions C06_no_record_without_handshake.
 Print Assumptions C06_honest_completes.
 Print Assumptions C06_responder_auth.
 Print Assumptions C06_session_binding.
